@@ -3,6 +3,7 @@
    reader used as the "independent reader" is Model.Recovery.open_image (read-only mode). *)
 From Coq Require Import List NArith Bool.
 From Feox Require Import Gen.Constants Model.Bytes Model.Crc32c Model.Codec Proofs.CodecProofs.
+From Feox Require Import Model.FreeSpace Model.Recovery Proofs.ScanAcceptsProofs.
 Import ListNotations.
 Local Open Scope N_scope.
 
@@ -116,3 +117,90 @@ Check marker_record_zero_disjoint : forall version r s rem st k, (8 <= k)%nat ->
   u16_at (marker_block s rem st) 0 <> SECTOR_MARKER /\
   firstn 8 (zeros k) <> DELETED_TAG /\ u16_at (zeros k) 0 <> SECTOR_MARKER.
 Print Assumptions marker_record_zero_disjoint.
+
+(* ---- what the write path puts on the device, the recovery scan reads back (Codec <-> Recovery) ----
+   One iteration of the scan loop at the head of an extent image produced by encode_extent
+   (serialize, pad, stamp the sector- and content-bound token; v1, v2 and v3 alike) accepts it,
+   advances exactly over the extent and indexes exactly the record's key, timestamp, expiry, value
+   length and sector. *)
+Theorem scan_accepts_what_the_write_path_encodes : forall version sector r,
+  0 < N.of_nat (length (r_key r)) ->
+  (6 + length (r_key r) + 16 + (if has_expiry version then 8 else 0) <= BLOCK)%nat ->
+  0 < N.of_nat (length (r_value r)) -> N.of_nat (length (r_value r)) <= MAX_VALUE_SIZE ->
+  r_ts r < 2 ^ 64 -> r_exp r < 2 ^ 64 ->
+  forall c total st st4 jl rest',
+  c_ro c = false -> N.of_nat (length (r_key r)) <= MAX_KEY_SIZE ->
+  sector + need_of version r <= total ->
+  idx_find (r_key r) (rs_idx st) = None ->
+  (if rs_last_end st <? sector then fs_release st (rs_last_end st) (sector - rs_last_end st) else Ok st) = Ok st4 ->
+  scan_step c version total sector
+    (chunk_blocks (encode_extent version sector r) (N.to_nat (need_of version r)) ++ rest') st jl =
+  Ok (Advance (sector + need_of version r) (index_one c version sector r st4) jl).
+Proof. exact scan_step_accepts_encoded_record. Qed.
+Check scan_accepts_what_the_write_path_encodes : forall version sector r,
+  0 < N.of_nat (length (r_key r)) ->
+  (6 + length (r_key r) + 16 + (if has_expiry version then 8 else 0) <= BLOCK)%nat ->
+  0 < N.of_nat (length (r_value r)) -> N.of_nat (length (r_value r)) <= MAX_VALUE_SIZE ->
+  r_ts r < 2 ^ 64 -> r_exp r < 2 ^ 64 ->
+  forall c total st st4 jl rest',
+  c_ro c = false -> N.of_nat (length (r_key r)) <= MAX_KEY_SIZE ->
+  sector + need_of version r <= total ->
+  idx_find (r_key r) (rs_idx st) = None ->
+  (if rs_last_end st <? sector then fs_release st (rs_last_end st) (sector - rs_last_end st) else Ok st) = Ok st4 ->
+  scan_step c version total sector
+    (chunk_blocks (encode_extent version sector r) (N.to_nat (need_of version r)) ++ rest') st jl =
+  Ok (Advance (sector + need_of version r) (index_one c version sector r st4) jl).
+Print Assumptions scan_accepts_what_the_write_path_encodes.
+
+(* hence a data area packed with the encoded extents of records with pairwise distinct keys is
+   scanned to exactly those records: the scan ends without error, and every record laid out is in
+   the index with its timestamp, expiry and value length *)
+Theorem scan_recovers_a_packed_data_area : forall c version total jl img,
+  c_ro c = false ->
+  forall rs fuel sector st,
+  Forall (rec_ok version) rs -> distinct_keys rs ->
+  (forall r, In r rs -> idx_find (r_key r) (rs_idx st) = None) ->
+  rs_last_end st = sector ->
+  skipn (N.to_nat sector) img = layout version sector rs ->
+  total = sector + blocks_of version rs ->
+  (length rs < fuel)%nat ->
+  scan fuel c version total img sector st jl = Ok (index_all c version sector rs st).
+Proof. exact ScanAcceptsProofs.scan_recovers_a_packed_data_area. Qed.
+Check scan_recovers_a_packed_data_area : forall c version total jl img,
+  c_ro c = false ->
+  forall rs fuel sector st,
+  Forall (rec_ok version) rs -> distinct_keys rs ->
+  (forall r, In r rs -> idx_find (r_key r) (rs_idx st) = None) ->
+  rs_last_end st = sector ->
+  skipn (N.to_nat sector) img = layout version sector rs ->
+  total = sector + blocks_of version rs ->
+  (length rs < fuel)%nat ->
+  scan fuel c version total img sector st jl = Ok (index_all c version sector rs st).
+Print Assumptions scan_recovers_a_packed_data_area.
+
+Theorem every_laid_out_record_is_indexed : forall c version rs sector st r,
+  distinct_keys rs -> In r rs ->
+  exists s, idx_find (r_key r) (rs_idx (index_all c version sector rs st)) =
+            Some (mkentry (r_key r) (r_ts r) (if has_expiry version then r_exp r else 0) (N.of_nat (length (r_value r))) s).
+Proof. exact ScanAcceptsProofs.every_laid_out_record_is_indexed. Qed.
+Check every_laid_out_record_is_indexed : forall c version rs sector st r,
+  distinct_keys rs -> In r rs ->
+  exists s, idx_find (r_key r) (rs_idx (index_all c version sector rs st)) =
+            Some (mkentry (r_key r) (r_ts r) (if has_expiry version then r_exp r else 0) (N.of_nat (length (r_value r))) s).
+Print Assumptions every_laid_out_record_is_indexed.
+
+(* non-vacuity: two records (one of them spanning two blocks) on a v3 layout *)
+Example packed_area_is_scanned :
+  let r1 := mkrec [107; 49] (repeat 7 5000) 11 0 in
+  let r2 := mkrec [107; 50] [1; 2; 3] 12 99 in
+  let img := repeat (repeat 0 BLOCK) 16 ++ layout 3 16 [r1; r2] in
+  match initialize (19 * 4096) with
+  | FOk f =>
+      match scan 5 (mkcfg false false None 168) 3 19 img 16 (mkrs [] f 0 0 0 [] 16 0) [] with
+      | Ok st => map (fun e => (e_key e, e_ts e, e_exp e, e_vlen e, e_sector e)) (rs_idx st)
+                 = [([107; 49], 11, 0, 5000, 16); ([107; 50], 12, 99, 3, 18)]
+      | _ => False
+      end
+  | _ => False
+  end.
+Proof. vm_compute. reflexivity. Qed.
